@@ -11,6 +11,7 @@ import (
 	"verif/harness/fieldchk"
 	"verif/harness/filterchk"
 	"verif/harness/histchk"
+	"verif/harness/httpchk"
 	"verif/harness/optchk"
 	"verif/harness/phchk"
 	"verif/harness/readchk"
@@ -27,6 +28,7 @@ var checks = map[string]func(prop, tier string) int{
 	"C06": readchk.Main,
 	"C10": fieldchk.Main,
 	"C12": phchk.Main,
+	"C16": httpchk.Main,
 	"C17": optchk.Main,
 	"C18": histchk.Main,
 	"C19": walkchk.Main,
